@@ -130,7 +130,7 @@ pub fn info() -> PropInfo {
         id: "C20",
         run,
         replay,
-        rule: "cases = (value of a struct with two or three list fields, scalar fields and list items that themselves contain same-named lists; an order-preserving interleaving of its child elements, also of the children of nested items; event-buffer limits; Deserializer::from_str or from_reader over 3-byte pieces). The contiguous serialization is cut into child elements and re-assembled in the chosen interleaving. Without a limit from_str(interleaved) == value. With limit k: the result is that value or TooManyEvents; success is monotone in k; every k below L must fail, where L is the largest number of deserializer events of not-yet-consumed foreign siblings lying strictly between the first and last item of a list at the time that list is deserialized (they have to be skipped while the sequence is read); every k >= total number of child events must succeed. ALL interleavings for values with <= 7 children, random ones above; limits 1..total+2. Non-trivial = the interleaving is not the contiguous one and at least one foreign sibling lies between two items of a list. A separate stage takes documents NOT produced by the serializer: optional children written with a prefixed nil attribute (true / 1 / false, with and without content, unprefixed look-alike) among the items of two lists, the nil namespace declared on an ancestor / on the struct's element / on the child / nowhere; every interleaving must give the value of the order in which the optional children come first (known finding F15 keyed on its exact signature).",
+        rule: "cases = (value of a struct with two or three list fields, scalar fields and list items that themselves contain same-named lists; an order-preserving interleaving of its child elements, also of the children of nested items; event-buffer limits; Deserializer::from_str or from_reader over 3-byte pieces). The contiguous serialization is cut into child elements and re-assembled in the chosen interleaving. Without a limit from_str(interleaved) == value. With limit k: the result is that value or TooManyEvents; success is monotone in k; every k below L must fail, where L is the largest number of deserializer events of not-yet-consumed foreign siblings lying strictly between the first and last item of a list at the time that list is deserialized (they have to be skipped while the sequence is read); every k >= total number of child events must succeed. ALL interleavings for values with <= 7 children, random ones above; limits 1..total+2. Non-trivial = the interleaving is not the contiguous one and at least one foreign sibling lies between two items of a list. A separate stage takes documents NOT produced by the serializer: optional children written with a prefixed nil attribute (true / 1 / false, with and without content, unprefixed look-alike) among the items of two lists, the nil namespace declared on an ancestor / on the struct's element / on the child / nowhere; every interleaving must give the value of the order in which the optional children come first (known finding F15 keyed on its exact signature). A third of the cases also try limits at the upper end of the number range (usize::MAX, MAX-1, MAX/2, MAX/16, 2^40): value back, no panic.",
         assumptions: &["between L and the total event count either outcome is accepted (the exact threshold of the algorithm is not asserted)", "feature overlapped-lists (feature set full) only"],
         level: "exploration",
         variants: &["full"],
@@ -390,7 +390,28 @@ pub fn check(c: &Case) -> Verdict {
             Err(e) => return Verdict::fail(format!("limit {}: unexpected error {} | {:?}", k, e, b.doc)),
         }
     }
+    // limits at the upper end of the number range ("practically unlimited"): they are above the total
+    // number of events, so the value must come back
+    let mut huge = false;
+    if c.order.len() % 3 == 0 {
+        huge = true;
+        for big in [usize::MAX, usize::MAX - 1, usize::MAX >> 1, usize::MAX >> 4, 1usize << 40] {
+            let r = std::panic::catch_unwind(std::panic::AssertUnwindSafe(|| de_with_limit(&c.value, &b.doc, Some(big), c.via_reader, &c.presets)));
+            match r {
+                Ok(Ok(v)) if v == c.value => {}
+                Ok(Ok(v)) => return Verdict::fail(format!("limit {}: document {:?} deserializes to {:?}, expected {:?}", big, b.doc, v, c.value)),
+                Ok(Err(e)) => return Verdict::fail(format!("limit {} (far above the {} events of the document) fails: {} | {:?}", big, b.total_events, e, b.doc)),
+                Err(p) => {
+                    let msg = p.downcast_ref::<String>().cloned().or_else(|| p.downcast_ref::<&str>().map(|s| s.to_string())).unwrap_or_default();
+                    return Verdict::fail(format!("limit {}: panic: {} | {:?}", big, msg, b.doc));
+                }
+            }
+        }
+    }
     let mut v = Verdict::pass(!b.contiguous && b.overlapped);
+    if huge {
+        v.classes.push("limits-at-the-upper-end-of-usize");
+    }
     if b.need > 0 {
         v.classes.push("needs-buffering");
     }
